@@ -18,7 +18,7 @@ func TestMain(m *testing.M) {
 	projsim.MaybeChild()
 	run = ev.Start("C08", "exploration",
 		"rapid draws a BUILD.dawn from a grammar of module-level items - constants of every value class, deeply nested constants, lists/dicts/sets of 1001 "+
-			"and 2500 elements, sets of long strings (hashed with a per-process seed), self-containing lists (also next to such a set), plain / directly recursive / mutually recursive helpers, default arguments, 1- and 2-level closures, "+
+			"and 2500 elements, a tuple together with a slice of it, sets of long strings (hashed with a per-process seed), self-containing lists (also next to such a set), plain / directly recursive / mutually recursive helpers, default arguments, 1- and 2-level closures, "+
 			"nested defs, helpers with every parameter kind (defaults, *args, mandatory and optional keyword-only, **kwargs), lambdas, comprehensions, for/while/if code, universals, globals bound to builtins, and predeclared values (the vf module, host, "+
 			"package, a Cache(), a flag value, another target, path/label/glob/contains builtins) - and a target function that references a generated subset "+
 			"of them; a second target in another package references its own items. Oracle, each step in a fresh child process with a 64 MB stack limit: "+
@@ -48,7 +48,7 @@ type Case struct {
 	MutOther bool   `json:"mutother"` // mutate an item of //p2 instead (must not re-run t)
 }
 
-var hard = map[string]bool{"strset": true, "cyclic-strset": true, "signature": true, "kwonly": true, "varargs": true, "closure-pair": true, "wrapped-twice": true, "recursive": true, "mutual": true, "closure": true, "closure2": true, "default": true, "nested": true, "biglist": true, "bigdict": true, "bigset": true, "cyclic": true,
+var hard = map[string]bool{"tuple-slice": true, "strset": true, "cyclic-strset": true, "signature": true, "kwonly": true, "varargs": true, "closure-pair": true, "wrapped-twice": true, "recursive": true, "mutual": true, "closure": true, "closure2": true, "default": true, "nested": true, "biglist": true, "bigdict": true, "bigset": true, "cyclic": true,
 	"pre-vf": true, "pre-cache": true, "pre-host": true, "pre-os": true}
 
 // render returns definition text and the use expression of item i (with name suffix sfx).
@@ -73,6 +73,9 @@ func (it Item) render(i int, sfx string, mutated bool) (def, use string) {
 		return fmt.Sprintf("G%s = {\"big\": list(range(1001)), \"z\": %s}\n", n, k), "G" + n + "[\"z\"]"
 	case "cyclic":
 		return fmt.Sprintf("G%s = [1, %s]\nG%s.append(G%s)\n", n, k, n, n), "len(G" + n + ")"
+	case "tuple-slice":
+		// two tuples that share storage (a slice of a tuple and the tuple), the prefix referenced first
+		return fmt.Sprintf("V%s = (1, 4, %s)\nP%s = V%s[:2]\n", n, k, n, n), "[P" + n + ", V" + n + "]"
 	case "strset":
 		// a set whose elements hash differently in every process (strings longer than the inline-hash limit)
 		return fmt.Sprintf("G%s = set([\"first-long-string-element-%s\", \"second-long-string-element\", \"third-long-string-element\", (\"tuple-with-a-long-string-inside\", 1)])\n", n, fmt.Sprintf("%x", []byte(k))), "len(G" + n + ")"
@@ -334,7 +337,7 @@ var sigPairs = [][2]string{
 	{"a, *, c=2|return [a, c]|1", "a, *, c=3|return [a, c]|1"},
 }
 
-var kinds = []string{"closure-pair", "wrapped-twice", "signature", "kwonly", "varargs", "strset", "cyclic-strset", "const", "deepconst", "func", "recursive", "mutual", "default", "closure", "closure2", "nested", "lambda", "compr", "loop", "universal", "builtin-global",
+var kinds = []string{"closure-pair", "wrapped-twice", "signature", "kwonly", "varargs", "tuple-slice", "strset", "cyclic-strset", "const", "deepconst", "func", "recursive", "mutual", "default", "closure", "closure2", "nested", "lambda", "compr", "loop", "universal", "builtin-global",
 	"biglist", "bigdict", "bigset", "biginline", "cyclic", "pre-vf", "pre-host", "pre-package", "pre-cache", "pre-flag", "pre-builtins", "recursive", "closure", "const"}
 
 var pairs = [][2]string{{"7", "8"}, {"300", "65580"}, {"256", "257"}, {"65535", "65536"}, {"\"a\"", "\"b\""}, {"(1, 2)", "(1, 3)"}, {"[1, 300]", "[1, 301]"}, {"1.5", "2.5"}, {"None", "False"}, {"{\"k\": 1}", "{\"k\": 2}"}, {"b\"x\"", "b\"y\""}, {"12345678901234567890", "12345678901234567891"}}
